@@ -9,6 +9,7 @@ from ..core import call_attr, calls_in, dotted, kwarg, norm, slice_parts, text, 
 from . import c09
 
 EXPLANATION = [
+    'C07.integer-arithmetic: no true division in the anchored modules: sizes and budgets are integers (a fractional budget admits one entry too many).',
     'C07.fifo: every deque of the anchored modules that is filled with append / extend is emptied with popleft or by iteration (never pop()), and conversely: queued entries come out in the order they went in.',
     'C07.unordered-pairing: no zip() / enumerate() pairs positions with a set (literal, comprehension, set() call or a name bound only to such): the order of a set is arbitrary.',
     'C07.byte-order: every field codec of bumble.l2cap (field metadata and struct formats) is little-endian: no single field of a signalling frame or header is byte-swapped.',
@@ -374,7 +375,13 @@ def fifo_rule(ctx):
     fifo_discipline(ctx, 'C07.fifo', ['bumble.l2cap'])
 
 
+def integer_arithmetic_rule(ctx):
+    from ..generic_rules import integer_arithmetic
+    integer_arithmetic(ctx, 'C07.integer-arithmetic', ['bumble.l2cap'])
+
+
 RULES = [
+    ('C07.integer-arithmetic', integer_arithmetic_rule),
     ('C07.fifo', fifo_rule),
     ('C07.unordered-pairing', unordered_pairing_rule),
     ('C07.byte-order', byte_order_rule),
